@@ -727,6 +727,35 @@ def run_shard(spec, ctx):
                 ctx.violation("ip.from_pytorch/accepted-length-mismatch", f"{e.problems[0][1]}", case)
             except Exception as e:
                 ctx.violation(f"ip.from_pytorch/length-mismatch-refused-with-{type(e).__name__}", f"{e}", case)
+        # additions arriving in tensor / table form obey the same rules: a duplicated or non-string identifier is refused
+        if n >= 2 and r.random() < 0.5:
+            import pandas as pd
+
+            dup = list(ids)
+            pos = int(r.integers(1, n))
+            dup[pos] = dup[int(r.integers(0, pos))]
+            nonstr = list(ids)
+            nonstr[int(r.integers(0, n))] = [7, 2.5, None, ("a",)][int(r.integers(4))]
+            attempts = [("duplicate-id", "from_pytorch", lambda: IP.from_pytorch(dup, tensors)),
+                        ("non-str-id", "from_pytorch", lambda: IP.from_pytorch(nonstr, tensors))]
+            try:
+                df_ok = ip.to_dataframe()
+                df_dup = df_ok.copy()
+                df_dup.index = pd.Index(dup, name=df_ok.index.name)
+                attempts.append(("duplicate-id", "from_dataframe", lambda: IP.from_dataframe(df_dup)))
+            except Exception:
+                pass
+            for cls_, via, fn in attempts:
+                try:
+                    fn()
+                    ctx.violation(f"ip.add/accepted-{cls_}", f"{via}: individuals with a {cls_.replace('-', ' ')} were accepted ({dup if cls_ == 'duplicate-id' else nonstr})", dict(case, via=via))
+                except LeaspyIndividualParamsInputError:
+                    ctx.count("rejections_judged")
+                    ctx.count(f"rejected_{cls_}_via_{via}")
+                except PostBroken as e:
+                    ctx.violation(f"ip.add/accepted-{cls_}", f"{via}: {e.problems[0][1]}", dict(case, via=via))
+                except Exception as e:
+                    ctx.violation(f"ip.add/{cls_}-refused-with-{type(e).__name__}", f"{via}: {type(e).__name__}: {e}", dict(case, via=via))
 
     runner = {"containers": run_container_case, "tables": run_table_case, "tensors": run_tensor_case}[kind]
     for i in ctx.cases(spec["n"]):
